@@ -58,6 +58,25 @@ type Fault struct {
 	Fired     int
 	Err       *sentinelErr
 	PanicVal  any
+	Returned  error // the exact value the failing constructor returned: Err itself or a wrapper around it
+}
+
+// returned: what the failing constructor hands back - the bare sentinel, the
+// constructor's own typed error wrapping it, or an fmt.Errorf("%w") chain.
+//
+//go:norace
+func (f *Fault) returned() error {
+	if f.Returned == nil {
+		switch (f.Reg + f.N) % 3 {
+		case 1:
+			f.Returned = &wrapErr{Msg: "open store", Inner: f.Err}
+		case 2:
+			f.Returned = fmt.Errorf("load config: %w", error(f.Err))
+		default:
+			f.Returned = f.Err
+		}
+	}
+	return f.Returned
 }
 
 func (f *Fault) String() string {
@@ -87,6 +106,9 @@ type Handle struct {
 	ScopeCtx  context.Context    // Scope.Context() captured at creation
 	StdCancel context.CancelFunc // CtxFromScope: cancel of the derived std context
 	CancelSeq int                // sequence number at which the creation context was cancelled (0 = never)
+	ValKey    any                // CtxValueOnly: caller key / value carried by the creation context
+	ValVal    any
+	Detached  bool // CtxValueOnly built over context.WithoutCancel(parent scope context)
 }
 
 func (h *Handle) P() godi.Provider {
@@ -121,6 +143,7 @@ const (
 	CtxFresh     // fresh simulator-owned cancellable context
 	CtxValue     // simulator-owned context carrying a caller value
 	CtxFromScope // derived (context.WithCancel) from the parent handle's Scope.Context()
+	CtxValueOnly // std context carrying a caller value and no cancellation (Done() == nil)
 	nCtxKinds
 )
 
@@ -447,6 +470,10 @@ func depTag(d Dep) reflect.StructTag {
 func inStructType(r *Reg) reflect.Type {
 	fields := []reflect.StructField{{Name: "In", Type: inType, Anonymous: true}}
 	for i, d := range r.Deps {
+		if d.Embed {
+			fields = append(fields, reflect.StructField{Name: d.T.RT().Elem().Name(), Type: depType(d), Tag: depTag(d), Anonymous: true})
+			continue
+		}
 		fields = append(fields, reflect.StructField{Name: fmt.Sprintf("F%d", i), Type: depType(d), Tag: depTag(d)})
 	}
 	return reflect.StructOf(fields)
@@ -500,7 +527,7 @@ func funcType(r *Reg) reflect.Type {
 func (h *H) makeCtor(r *Reg) any {
 	if r.Form == FInstance {
 		pv := reflect.New(r.Outs[0].Concrete.RT().Elem())
-		in := pv.Interface().(inster).inst()
+		in, _ := asInst(pv.Interface())
 		in.Reg, in.OutIdx, in.Inv = r.ID, 0, -1
 		h.addInst(in)
 		in.CreatedSeq = h.nextSeq()
@@ -562,8 +589,8 @@ func (h *H) recArg(d Dep, v reflect.Value) ArgRec {
 				rec.Insts = append(rec.Insts, -1)
 				continue
 			}
-			if in, ok := e.Interface().(inster); ok {
-				rec.Insts = append(rec.Insts, in.inst().ID)
+			if in, ok := asInst(e.Interface()); ok {
+				rec.Insts = append(rec.Insts, in.ID)
 			} else {
 				rec.Insts = append(rec.Insts, -2)
 			}
@@ -573,8 +600,8 @@ func (h *H) recArg(d Dep, v reflect.Value) ArgRec {
 	if isNilDeep(v) {
 		return ArgRec{Kind: ArgNil}
 	}
-	if in, ok := v.Interface().(inster); ok {
-		return ArgRec{Kind: ArgInst, Insts: []int{in.inst().ID}}
+	if in, ok := asInst(v.Interface()); ok {
+		return ArgRec{Kind: ArgInst, Insts: []int{in.ID}}
 	}
 	return ArgRec{Kind: ArgOther}
 }
@@ -614,6 +641,7 @@ func (h *H) ctorBody(r *Reg, ft reflect.Type, args []reflect.Value) []reflect.Va
 	inv.EnterSeq = h.event(EvCtorEnter, inv.ID, -1)
 	simrt.Yield(siteCtorEnter)
 	outs := zeroOuts(ft)
+	nilIdx := -1
 	f := h.faultFor(FCtorErr, FCtorNil, r.ID, inv.N)
 	if f != nil {
 		inv.Fault = f
@@ -626,7 +654,7 @@ func (h *H) ctorBody(r *Reg, ft reflect.Type, args []reflect.Value) []reflect.Va
 			if ft.NumOut() > 0 && ft.Out(ft.NumOut()-1) == errType {
 				inv.Outcome = OutErr
 				inv.ExitSeq = h.event(EvCtorExit, inv.ID, -1)
-				outs[len(outs)-1] = reflect.ValueOf(f.Err).Convert(errType)
+				outs[len(outs)-1] = reflect.ValueOf(f.returned()).Convert(errType)
 				return outs
 			}
 			// no error result: degrade to panic with the sentinel error
@@ -635,14 +663,22 @@ func (h *H) ctorBody(r *Reg, ft reflect.Type, args []reflect.Value) []reflect.Va
 			inv.ExitSeq = h.event(EvCtorExit, inv.ID, -1)
 			panic(f.PanicVal)
 		case FCtorNil:
-			inv.Outcome = OutNil
-			inv.ExitSeq = h.event(EvCtorExit, inv.ID, -1)
-			return outs
+			if len(r.Outs) < 2 || (inv.N+r.ID)%2 == 1 {
+				inv.Outcome = OutNil
+				inv.ExitSeq = h.event(EvCtorExit, inv.ID, -1)
+				return outs
+			}
+			// several outputs: only one of them is nil, the others are real instances
+			nilIdx = (inv.N + r.ID/2) % len(r.Outs)
 		}
 	}
 	// build outputs
 	var made []reflect.Value
 	for i := range r.Outs {
+		if i == nilIdx {
+			made = append(made, reflect.Zero(r.Outs[i].T.RT()))
+			continue
+		}
 		made = append(made, h.newOut(r, i, inv))
 	}
 	switch r.Form {
@@ -659,6 +695,9 @@ func (h *H) ctorBody(r *Reg, ft reflect.Type, args []reflect.Value) []reflect.Va
 	}
 	simrt.Yield(siteCtorExit)
 	inv.Outcome = OutOK
+	if nilIdx >= 0 {
+		inv.Outcome = OutNil
+	}
 	inv.ExitSeq = h.event(EvCtorExit, inv.ID, -1)
 	return outs
 }
@@ -667,7 +706,8 @@ func (h *H) ctorBody(r *Reg, ft reflect.Type, args []reflect.Value) []reflect.Va
 func (h *H) newOut(r *Reg, i int, inv *Invocation) reflect.Value {
 	o := r.Outs[i]
 	pv := reflect.New(o.Concrete.RT().Elem())
-	h.adoptOut(r, i, inv, pv.Interface().(inster).inst())
+	in, _ := asInst(pv.Interface())
+	h.adoptOut(r, i, inv, in)
 	return pv
 }
 
